@@ -297,9 +297,13 @@ def roundtrip_impl(conv, fmt, syn, expand):
     try:
         if fmt == "epm":
             curies.write_extended_prefix_map(conv, path)
+            with open(path, newline="") as f:
+                CAPTURED.append(("epm", [], f.read()))
             return curies.load_extended_prefix_map(Path(path))
         if fmt == "jsonld":
             curies.write_jsonld_context(conv, path, include_synonyms=syn, expand=expand)
+            with open(path, newline="") as f:
+                CAPTURED.append(("jsonld", [], f.read()))
             return curies.load_jsonld_context(path, strict=not syn)
         if fmt == "shacl":
             curies.write_shacl(conv, path, include_synonyms=syn)
